@@ -14,7 +14,7 @@ ID = 'C03'
 KIND = 'explorer'
 LEVEL = 'model_checking'
 LIVE = {'thorough': ['stubborn-stop']}
-BUDGET = {'quick': 120, 'thorough': 1200}
+BUDGET = {'quick': 900, 'thorough': 10800}
 RULE = ('full product stop_signal x graceful_timeout x worker reaction delay (0.05 s grid from 0 to g+0.2, including '
         'd=g exactly with the tie explored both ways) x termination cause x stop_children/process tree, each run on '
         'the real daemon under virtual time; plus, on a sub-grid, one extra worker death at every loop-iteration '
@@ -70,6 +70,13 @@ def scenarios(tier):
         for d in (0.0, 0.1, 'never'):
             for cause in ('stop', 'kill', 'decr'):
                 out.append(Scenario('term', sig='TERM', g=0.25, d=d, cause=cause, tree=['c'], cb='obedient', sc=True, E=1))
+    # stop_children with one of the children (or the worker) dying anywhere, also between the listing of the children and
+    # the delivery to each of them
+    for tree in (['c'], ['c', 'c']):
+        for d in ((0.0, 'never') if tier == 'quick' else (0.0, 0.1, 'never')):
+            for cause in (('stop', 'kill') if tier == 'quick' else ('stop', 'kill', 'decr', 'reload')):
+                out.append(Scenario('term', sig='TERM', g=0.25, d=d, cause=cause, tree=list(tree), cb='obedient', sc=True, E=1,
+                                    kids_die=True))
     return out
 
 
@@ -87,7 +94,9 @@ def _behaviour(scn):
     kids = ()
     if scn.tree:
         cb = OBEDIENT if scn.cb == 'obedient' else STUBBORN
-        if len(scn.tree) == 2:
+        if list(scn.tree) == ['c', 'c']:
+            kids = (cb, cb)
+        elif len(scn.tree) == 2:
             kids = (Behaviour(cb.name + '+g', cb.reactions, children=(cb,)),)
         else:
             kids = (cb,)
@@ -106,6 +115,7 @@ def run(scn, ch):
     world = World(ch, [WSpec('a', numprocesses=2, behaviours=[_behaviour(scn)], **opts),
                        WSpec('z', numprocesses=1, graceful_timeout=9.0, stop_signal=int(signal.SIGUSR2))])
     win = Window(world)
+    world.deaths_include_descendants = bool(scn.p.get('kids_die'))
     try:
         world.boot()
         world.run(until=lambda w: w.boot_future.done(), horizon=5)
@@ -209,6 +219,10 @@ def _oracle(world, scn, res, exp_sig, exp_g, t_cause, t_end):
                 # before - same instant, earlier in the kernel's event order - has no children any more)
                 first_seq = min([sq for sq, (t, pid, s, via) in zip(k.signal_seq, k.signal_log) if pid == p.pid and via != 'os.kill'] or [0])
                 worker_alive_at_first = p.death_seq is None or p.death_seq > first_seq
+                # ... and so was the child: children are signalled before the worker, so a child that outlived the worker's
+                # first signal (kernel event order) was alive for the whole delivery
+                if first_seq and c.death_seq is not None and c.death_seq < first_seq:
+                    alive_t0 = False
                 if scn.sc and alive_t0 and worker_alive_at_first and _was_child_at(world, c, p, t0):
                     res.check('C03.children_stop', any(abs(t - t0) <= TOL and s == exp_sig for t, s in csig),
                               lambda: 'stop_children: child %d of worker %d did not get signal %d at the stop (%s)'
